@@ -661,8 +661,8 @@ def knot_removal(degree, knotvector, ctrlpts, u, **kwargs):
 
     # Loop for Eqs 5.28 & 5.29
     for t in range(0, num):
-        temp[0] = ctrlpts[first - 1]
-        temp[last - first + 2] = ctrlpts[last + 1]
+        temp[0] = ctrlpts_new[first - 1]
+        temp[last - first + 2] = ctrlpts_new[last + 1]
         i = first
         j = last
         ii = 1
@@ -670,18 +670,18 @@ def knot_removal(degree, knotvector, ctrlpts, u, **kwargs):
         remflag = False
 
         # Compute control points for one removal step
-        while j - i >= t:
+        while j - i > t:
             alpha_i = knot_removal_alpha_i(u, degree, tuple(knotvector), t, i)
             alpha_j = knot_removal_alpha_j(u, degree, tuple(knotvector), t, j)
             if is_volume:
                 for idx in range(len(ctrlpts[0])):
                     temp[ii][idx] = [(cpt - (1.0 - alpha_i) * ti) / alpha_i for cpt, ti
-                                     in zip(ctrlpts[i][idx], temp[ii - 1][idx])]
+                                     in zip(ctrlpts_new[i][idx], temp[ii - 1][idx])]
                     temp[jj][idx] = [(cpt - alpha_j * tj) / (1.0 - alpha_j) for cpt, tj
-                                     in zip(ctrlpts[j][idx], temp[jj + 1][idx])]
+                                     in zip(ctrlpts_new[j][idx], temp[jj + 1][idx])]
             else:
-                temp[ii] = [(cpt - (1.0 - alpha_i) * ti) / alpha_i for cpt, ti in zip(ctrlpts[i], temp[ii - 1])]
-                temp[jj] = [(cpt - alpha_j * tj) / (1.0 - alpha_j) for cpt, tj in zip(ctrlpts[j], temp[jj + 1])]
+                temp[ii] = [(cpt - (1.0 - alpha_i) * ti) / alpha_i for cpt, ti in zip(ctrlpts_new[i], temp[ii - 1])]
+                temp[jj] = [(cpt - alpha_j * tj) / (1.0 - alpha_j) for cpt, tj in zip(ctrlpts_new[j], temp[jj + 1])]
             i += 1
             j -= 1
             ii += 1
@@ -701,7 +701,7 @@ def knot_removal(degree, knotvector, ctrlpts, u, **kwargs):
                 ptn = [(alpha_i * t1) + ((1.0 - alpha_i) * t2) for t1, t2 in zip(temp[ii + t + 1][0], temp[ii - 1][0])]
             else:
                 ptn = [(alpha_i * t1) + ((1.0 - alpha_i) * t2) for t1, t2 in zip(temp[ii + t + 1], temp[ii - 1])]
-            if linalg.point_distance(ctrlpts[i], ptn) <= tol:
+            if linalg.point_distance(ctrlpts_new[i][0] if is_volume else ctrlpts_new[i], ptn) <= tol:
                 remflag = True
 
         # Check if we can remove the knot and update new control points array
@@ -730,7 +730,7 @@ def knot_removal(degree, knotvector, ctrlpts, u, **kwargs):
         else:
             j -= 1
     for k in range(i+1, len(ctrlpts)):
-        ctrlpts_new[j] = ctrlpts[k]
+        ctrlpts_new[j] = ctrlpts_new[k]
         j += 1
 
     # Slice to get the new control points
